@@ -353,6 +353,53 @@ def rule_ssrb_geometry(ctx, f):
     return n
 
 
+def rule_h_per_plane_variant(ctx, zf):
+    """The variant that zooms plane by plane must give what the one-call 3D zoom gives: (1) its shortcut `nothing to do` may only be
+    taken when BOTH transaxial sizes of the input equal the requested size (the result is new_size x new_size); (2) the zoomed plane of
+    input plane p is stored at plane  first plane of the new image + (p - first plane of the input)  - the new image numbers its planes
+    from its own first plane (0), the input need not."""
+    RULE = "C15.h-per-plane-variant-equals-3d"
+    import sympy
+    from engine.algebra import Algebra
+
+    n = 0
+    for f in zf:
+        if f.body is None or f.short != "zoom_image" or not f.cfg_raw:
+            continue
+        sp = [c for c in f.calls() if (c.callee or "").endswith("::set_plane") and len(c.call_args()) == 2]
+        if not sp:
+            continue
+        img = "v%d" % f.params[0]["d"]
+        sizes = [p for p in f.params if re.fullmatch(r"(const )?int", (p.get("t") or "").strip())]
+        # (1) the shortcut
+        for g in f.walk():
+            if g.k == "IfStmt" and len(g.c) >= 2 and any(r.k == "ReturnStmt" and r.c and key(r.c[0].strip()).endswith(img) or (r.k == "ReturnStmt" and img in key(r)) for r in g.c[1].walk()):
+                ck = key(g.c[0])
+                ok = all(("%s.%s()" % (img, acc)) in ck for acc in ("get_x_size", "get_y_size")) if sizes else True
+                ctx.ob(RULE, f.qn + "(" + f.sig[:50] + ")", "shortcut", ok, g.where(), "the input is returned unchanged only if its x- and its y-size are the requested size" if ok else "the shortcut returns the input unchanged without comparing both its transaxial sizes with the requested size: a non-square input keeps its shape where the 3D zoom gives new_size x new_size")
+                n += 1
+        # (2) plane numbering
+        alg = Algebra(f, names=True)
+        for c in sp:
+            loops = [a for a in c.ancestors() if a.k == "ForStmt"]
+            if not loops:
+                continue
+            d = describe(loops[0], names=True)
+            if d is None:
+                ctx.unrec(f.qn, "loop over the planes not recognised")
+                continue
+            out = key(c.c[0].strip(), True)
+            e = alg.expr(c.call_args()[1])
+            pv = alg.sym(d["var"])
+            diff = sympy.simplify(e - pv)
+            want = alg.sym("%s.get_min_z()" % out) - alg.sym("%s.get_min_z()" % (f.params[0].get("n") or "image"))
+            first_is_in_min = d["init"] == "%s.get_min_z()" % (f.params[0].get("n") or "image")
+            ok = first_is_in_min and sympy.simplify(diff - want) == 0
+            ctx.ob(RULE, f.qn + "(" + f.sig[:50] + ")", "plane-numbering", ok, c.where(), "plane p of the input goes to plane min_z(new) + (p - min_z(input))" if ok else "the zoomed plane of input plane p is stored at plane `%s` of the new image, whose planes start at its own min_z: for an input that does not start at the same plane number this writes outside the new image" % e)
+            n += 1
+    return n
+
+
 def run(ctx):
     ctx.explanation = (
         "Decides structural clauses only. SSRB(out, in, do_norm): (a) each output sinogram starts as a fresh empty sinogram, accumulates "
@@ -387,6 +434,8 @@ def run(ctx):
             seen.add((f.file, f.line))
             zf.append(f)
     rule_zoom(ctx, zf, us[1].enums)
+    rule_h_per_plane_variant(ctx, zf)
+    ctx.require_count("C15.h-per-plane-variant-equals-3d", 2)
     ctx.require_count("C15.a-ssrb-accumulates-into-fresh-sinogram", 1)
     ctx.require_count("C15.b-ssrb-covers-all-input", 5)
     ctx.require_count("C15.c-ssrb-normalises-only-on-request", 1)
